@@ -1,7 +1,7 @@
 (* Entry points (val -> val) for the DATA framing model (property C05);
    evaluated by the extracted OCaml driver and by vm_compute. *)
 From Coq Require Import List NArith Bool String.
-From SV Require Import lib.Val lib.Bytes model.Data.
+From SV Require Import lib.Val lib.Bytes model.Data model.DataObj.
 Import ListNotations.
 Open Scope N_scope.
 
@@ -49,6 +49,14 @@ Definition e_spec (v : val) : val :=
 
 Definition e_expected (v : val) : val := VB (expected (get_b v)).
 
+(* [[part; ...]; n] -> the wire strings of n successive emissions of ONE DataSender object *)
+Definition e_emissions (v : val) : val :=
+  match v with
+  | VL [VL parts; VN n] => VL (map VB (emissions (sender_new (map get_b parts)) (N.to_nat n)))
+  | _ => verr
+  end.
+
 Definition entries : list entry :=
   [("c05_send"%string, e_send); ("c05_pieces"%string, e_pieces); ("c05_recv"%string, e_recv);
-   ("c05_is_eod"%string, e_is_eod); ("c05_spec"%string, e_spec); ("c05_expected"%string, e_expected)].
+   ("c05_is_eod"%string, e_is_eod); ("c05_spec"%string, e_spec); ("c05_expected"%string, e_expected);
+   ("c05_emissions"%string, e_emissions)].
